@@ -142,10 +142,16 @@ def run_harness(res, src, variant, tier, args=(), shards=1, timeout=3600, deadli
         elif rc == -999:
             res.errors.append("%s shard %d: %s" % (tag, i, err))
         else:
+            res.exhaustive = False   # the rest of this shard was not explored
             key = crash_key(err)
+            m = re.search(r"VH-CURRENT-CASE: ([^\n]*)", err)
+            if m:
+                # the harness told us which case was running: that case is the replay
+                rp = m.group(1).replace("\\n", "\n") + "\n# fatal: " + key + "\n"
+            else:
+                rp = "CRASH\nexe-args: %s\n%s" % (" ".join(a), err[-5000:])
             res.add_violation("%s:%s" % (tag, key),
-                              "harness process died rc=%s (%s)" % (rc, key),
-                              "CRASH\nexe-args: %s\n%s" % (" ".join(a), err[-5000:]))
+                              "harness process died rc=%s (%s)%s" % (rc, key, (" in case " + m.group(1)[:300]) if m else ""), rp)
     return exe
 
 
